@@ -159,6 +159,7 @@ type envExec struct {
 	sessFact []int
 	recs     []*ae.DataRowRecord
 	recInfo  []RecInfo
+	corrupted map[string]int
 	payloads map[int][]byte
 	revs     []RevInfo
 	needWait bool
@@ -552,7 +553,13 @@ func (x *envExec) do(op EnvOp) (ob EnvObs) {
 			ob.R = "unit"
 		case "corruptkey":
 			if r := x.ms.Get(unhex(op.ID), op.Created); r != nil && len(r.EncryptedKey) > 0 {
-				r.EncryptedKey[0] ^= 2
+				// a different byte every time: corrupting a row twice must not restore it
+				k := fmt.Sprintf("%s/%d", op.ID, op.Created)
+				if x.corrupted == nil {
+					x.corrupted = map[string]int{}
+				}
+				r.EncryptedKey[x.corrupted[k]%len(r.EncryptedKey)] ^= 2
+				x.corrupted[k]++
 			}
 			ob.R = "unit"
 		default:
